@@ -93,10 +93,13 @@ theorem quiescent_stays (env : Env) (n : Nat) (t : State E) (h : t.pending = fal
   iter_quiescent env n t h
 
 
-/-- FULL STATEMENT (property): at quiescence no progress records remain. That is FALSE of the code
-    (`stale_record_survives_witness`, `reverted_change_witness`, `blind_witness` below; known findings
-    C03-F1..F3). PROVED HERE under the exact guard `Purging`: the pass that closes the cycle executes
-    handlers (a handler reason with a non-empty selection) — or the object carried no record to begin with. -/
+/-- FULL STATEMENT (property): at quiescence no progress records remain. Still FALSE of the code in two
+    situations (`reverted_change_witness`, `blind_witness` below; known findings C03-F3, C03-F2): the
+    cause is the no-op (the outstanding change was reverted to the last-handled state) or the framework
+    is blind to the object (`prematch = false`) while records are left over. PROVED HERE under the exact
+    guard `Purging`: the cause has a handler reason — every pass that closes such a cycle purges all owned
+    records, also the `skip` pass without selected handlers (since the repair of C03-F1) — or the object
+    carried no record to begin with. -/
 theorem no_records_partial (env : Env) (hpm : env.prematch = true) (m : Nat) :
     ∀ (s : State E), s.pending = true → Purging env s → (iter env m s).pending = false →
       ∀ i ∈ env.owned, (iter env m s).P i = none := by
@@ -224,19 +227,32 @@ theorem stateW_uniform (b : Bool) (base : Option Nat) (ess : Nat) : UniformOn (e
   · cases hP; rfl
   · cases hP
 
-/-- C03-F1. "No progress records remain" is false: the update handler `u0` was retrying, an external
-    label edit made it stop matching (and changed the essence); the next pass has a handler reason but
-    nothing selected — the `skip` path closes the cycle (last-handled := essence) and leaves `u0`'s
-    record where it is. The loop is quiescent after 2 turns, converged in every other respect, never
-    writes again — and the record stays on the object forever. All hypotheses of `terminates` hold. -/
-theorem stale_record_survives_witness :
-    ∃ (env : Env) (s : State Nat), WF env ∧ AllFinal env ∧ UniformOn env.owned s.P ∧ env.prematch = true ∧
-      s.pending = true ∧ "u0" ∈ env.owned ∧ isHandler s = true ∧ env.sel (causeOf s) = [] ∧
-      (iter env 2 s).pending = false ∧ (iter env 2 s).base = some s.ess ∧
-      (iter env 2 s).P "u0" = s.P "u0" ∧ (s.P "u0").isSome = true ∧
-      (iter env 3 s).writes = (iter env 2 s).writes :=
-  ⟨envW true, stateW (some 0) 1, envW_wf true, fun _ _ => rfl, stateW_uniform true _ _, rfl, rfl, by decide,
-   by decide, by decide, by decide, by decide, by decide, by decide, by decide⟩
+/-- The `skip` pass (a handler reason, but no handler selected any more — e.g. the retrying handler's
+    label filter stopped matching): the cycle is closed, the last-handled state becomes the essence and
+    EVERY owned progress record is purged, in particular the stale one of the no-longer-selected handler.
+    (Formerly false of the code: finding C03-F1, repaired in /repo by 2ae938f.) -/
+theorem skip_path_purges (env : Env) (s : State E) (hp : s.pending = true) (hpm : env.prematch = true)
+    (hh : isHandler s = true) (he : (env.sel (causeOf s)).isEmpty = true) :
+    (loopStep env s).base = some s.ess ∧ (loopStep env s).fullyHandled = true ∧
+    ∀ i ∈ env.owned, (loopStep env s).P i = none := by
+  obtain ⟨hc, hn⟩ := closed_purges_skip (cfgOf env s) s.P s.now s.now env.exec hh he
+  have hc' : (pass env s).closed = true := hc
+  rcases loopStep_cases env s hp hpm with ⟨_, h⟩ | ⟨d, _, _, h⟩ | ⟨_, _, h⟩ <;> rw [h] <;>
+    exact ⟨by simp [nextState, hc'], by simp [nextState, hc'], hn⟩
+
+/-- The former C03-F1 scenario as a regression instance: `u0` was retrying, a label edit made it stop
+    matching and changed the essence; after two turns the loop is quiescent, converged, and `u0`'s record
+    is gone; a third turn writes nothing. -/
+theorem stale_record_purged_instance :
+    WF (envW true) ∧ AllFinal (envW true) ∧ UniformOn (envW true).owned (stateW (some 0) 1).P ∧
+    isHandler (stateW (some 0) 1) = true ∧ (envW true).sel (causeOf (stateW (some 0) 1)) = [] ∧
+    ((stateW (some 0) 1).P "u0").isSome = true ∧
+    (iter (envW true) 2 (stateW (some 0) 1)).pending = false ∧
+    (iter (envW true) 2 (stateW (some 0) 1)).base = some 1 ∧
+    (iter (envW true) 2 (stateW (some 0) 1)).P "u0" = none ∧
+    (iter (envW true) 3 (stateW (some 0) 1)).writes = (iter (envW true) 2 (stateW (some 0) 1)).writes :=
+  ⟨envW_wf true, fun _ _ => rfl, stateW_uniform true _ _, by decide, by decide, by decide, by decide, by decide,
+   by decide, by decide⟩
 
 /-- C03-F3. The same with no outstanding change at all: the change `u0` was retrying for has been
     reverted to the last-handled state; the cause is the no-op, nothing is written, the record stays. -/
@@ -300,10 +316,11 @@ example : bound envA stateA = 5 ∧ (iter envA 3 stateA).pending = true ∧ (ite
   refine ⟨by decide, by decide, by decide⟩
 
 -- non-vacuity of `no_records_partial` / `all_selected_completed` / `invoked_once_after_last_change`:
--- the guard `Purging` and `NoExtras` hold of that state, the first pass is open and `u1`'s outcome is final
+-- the guard `Purging` and `NoExtras` hold of that state, the first pass is open and `u1`'s outcome is final;
+-- `Purging` also holds of the former C03-F1 state (records present, handler reason, nothing selected)
 example : Purging envA stateA ∧ NoExtras (cfgOf envA stateA) stateA.P ∧ (pass envA stateA).closed = false ∧
-    (envA.exec "u1" 0).final = true :=
-  ⟨Or.inl ⟨by decide, by decide⟩, fun i _ r h => by simp [stateA] at h, by decide, by decide⟩
+    (envA.exec "u1" 0).final = true ∧ Purging (envW true) (stateW (some 0) 1) :=
+  ⟨Or.inl (by decide), fun i _ r h => by simp [stateA] at h, by decide, by decide, Or.inl (by decide)⟩
 
 -- non-vacuity of `accumulated_change`: three edits during a downtime, one update cause
 example : (causeOf (restart (applyEdits stateA [5, 6, 7]) 100)).reason = .update ∧
